@@ -721,6 +721,22 @@ func genC03(c *Ctx) {
 			bad(ver, func(a [][]byte) { a[3], a[4], a[5], a[2] = B("m.room.create"), B("1"), B("x"), B("!"+g.randOf(b64url, 43)) }, "v12-create-skey-x-with-room")
 			bad(ver, func(a [][]byte) { a[3], a[4], a[5], a[2] = B("m.room.create"), B("0"), B(""), B("") }, "v12-create-no-skey-no-room")
 			bad(ver, func(a [][]byte) { a[3], a[4], a[5], a[2] = B("m.room.create"), B("1"), B(""), B("") }, "v12-create")
+			// type m.room.create but not THE create event (no state key): an ordinary event
+			bad(ver, func(a [][]byte) { a[3], a[4], a[5], a[2] = B("m.room.create"), B("0"), B(""), B("!"+g.randOf(b64url, 43)) }, "v12-create-type-no-skey-with-room")
+			for _, ty := range []string{"m.room.create", "m.room.member"} {
+				for _, sk := range [][2]string{{"0", ""}, {"1", ""}, {"1", "x"}} {
+					a := g.proto(ver)
+					a[3], a[4], a[5] = B(ty), B(sk[0]), B(sk[1])
+					a[2] = B("!" + g.randOf(b64url, 43))
+					if ty == "m.room.create" && sk[0] == "1" {
+						a[2] = B("")
+					}
+					a[11] = B(`{"creator":"@alice:example.org"}`)
+					a = append(a, B(`{"age":1}`), B("age"), B("2"), B("second.example.org"), B("ed25519:2"))
+					c.Run("C03.edits", a, "C03.edits", "C03.prop.edits", "v12 create discriminants "+c03Desc(a))
+					c.Count("edits/v12-discriminants")
+				}
+			}
 		}
 	}
 	// the 65536-byte limit of CheckFields, hit exactly: filler of many short strings (the shared
